@@ -71,6 +71,10 @@ pub enum AOp {
     Disable,
     Enable,
     EnableMax(u8),
+    /// receiver side only: an interleaved packet that is rejected and is neither a start nor a complete packet
+    /// (0: end fragment of an unknown id, 1: intermediate fragment of an unknown id, 2: end fragment with 3 bytes of
+    /// GSE length, i.e. malformed). It must not disturb what the sender's following re-use labels refer to.
+    RxNoise(u8),
 }
 
 pub struct ASys {
@@ -113,6 +117,9 @@ impl System for ASys {
         v.push(AOp::Enable);
         for &m in &self.maxes {
             v.push(AOp::EnableMax(m));
+        }
+        for k in 0..2u8 {
+            v.push(AOp::RxNoise(k));
         }
         v
     }
@@ -280,6 +287,20 @@ impl System for ASys {
             AOp::Disable => n.enc.disable_re_use_label(),
             AOp::Enable => n.enc.enable_re_use_label(),
             AOp::EnableMax(m) => n.enc.enable_re_use_label_with_max_consecutive(*m),
+            AOp::RxNoise(k) => {
+                let pkt = match k {
+                    0 => Desc::end(200, &[0xD1, 0xD2], 0x0102_0304).print(),
+                    _ => Desc::inter(201, &[0xD3, 0xD4]).print(),
+                };
+                let (dout, mut rx2) = step_decap(&n.rx, &DefaultCrc {}, &TableMgr::none(), &pkt);
+                acc.calls += 1;
+                acc.outcome(&format!("rx-noise:{}:{}", k, dout.class()));
+                if matches!(dout, DecapOut::Completed { .. } | DecapOut::Fragmented { .. }) {
+                    viols.push((format!("C04|A|noise-accepted|{}", dout.class()), format!("{:?}: a continuation packet of an unknown fragment id is accepted: {}", op, dout.brief())));
+                }
+                reprovision(&mut rx2, &dout);
+                n.rx = rx2;
+            }
         }
         // a new first fragment on an id replaces the receiver's context: forget contents the property cannot observe
         crate::rxmodel::normalise(&mut n.rx);
@@ -392,7 +413,9 @@ impl System for BSys {
                 n.rx = rx2;
                 // classify the packet by the independent reading of its header
                 let hdr = if bytes.len() >= 2 { refm::header_fields(u16::from_be_bytes([bytes[0], bytes[1]])) } else { None };
-                let starts = bytes.len() >= 1 && bytes[0] & 0x80 != 0; // S bit
+                // S bit of a complete fixed header (a buffer shorter than the fixed header is not a packet at all: it neither
+                // carries a label nor separates the following packet from the preceding start/complete packet)
+                let starts = bytes.len() >= 2 && bytes[0] & 0x80 != 0;
                 let parsed = refm::parse(bytes, &|_| None);
                 let reported: Option<Lbl> = match &out {
                     DecapOut::Completed { meta, .. } | DecapOut::Fragmented { meta, .. } => Some(meta.label),
@@ -495,7 +518,7 @@ pub fn b_sys() -> BSys {
 
 pub fn run(tier: Tier) -> i32 {
     let rep = Report::new("C04", tier);
-    rep.set_rule("A: closure of the product real Encapsulator x real Decapsulator (lock-step, every successfully produced packet fed at once) under send(label in {two 6-byte, 3-byte, broadcast, explicit re-use} x how in {complete, complete via encap_ext, first fragment on id 0/1 via encap and encap_ext, fail: small buffer / PDU too long / protocol type, encap_ext fail}), zero label, continue(id) (end fragment of an open train), reset of both sides, disable, enable, enable-with-max(1,2,3,255); ghost = label intended per PDU and what the wire carried; B: closure of the receiver alone under 33 packets, with two and with one storage buffer (so that start packets are also rejected for lack of storage), (complete and first fragments of every label kind incl. re-use, continuation packets of known/unknown ids, rejected and malformed start packets, padding) and reset; oracle: a resolved re-use label equals the label of the nearest preceding start/complete packet of the frame. distinct = (op, outcome)");
+    rep.set_rule("A: closure of the product real Encapsulator x real Decapsulator (lock-step, every successfully produced packet fed at once) under send(label in {two 6-byte, 3-byte, broadcast, explicit re-use} x how in {complete, complete via encap_ext, first fragment on id 0/1 via encap and encap_ext, fail: small buffer / PDU too long / protocol type, encap_ext fail}), zero label, continue(id) (end fragment of an open train), reset of both sides, disable, enable, enable-with-max(1,2,3,255), and receiver-side noise (rejected intermediate / end fragments of unknown ids interleaved at any point); ghost = label intended per PDU and what the wire carried; B: closure of the receiver alone under 33 packets, with two and with one storage buffer (so that start packets are also rejected for lack of storage), (complete and first fragments of every label kind incl. re-use, continuation packets of known/unknown ids, rejected and malformed start packets, padding) and reset; oracle: a resolved re-use label equals the label of the nearest preceding start/complete packet of the frame. distinct = (op, outcome)");
     rep.assume("A: both label memories are reset at the same points; receiver storage is kept sufficient by re-provisioning delivered buffers; trains have 2 fragments");
     rep.assume("B: a start/complete packet whose label cannot be read (truncated, malformed) counts as carrying an unknown label: nothing may be resolved from before it; padding does not end the frame for the oracle (weaker than the crate, which clears its memory)");
     // the quick tier explores the same (closed) product as the thorough one: it closes in a few seconds
